@@ -16,6 +16,7 @@ ap.add_argument("--patch")
 ap.add_argument("--replace", nargs=3, action="append", default=[])
 ap.add_argument("--seed", default="1")
 ap.add_argument("--budget")
+ap.add_argument("--fuzz")
 a = ap.parse_args()
 verif = os.path.dirname(os.path.dirname(os.path.abspath(__file__)))
 tmp = tempfile.mkdtemp(prefix="pymab_mut_")
@@ -37,6 +38,8 @@ try:
         cmd = [os.path.join(verif, "check"), c, "--tier", a.tier, "--no-evidence"]
         if a.budget:
             cmd += ["--budget", a.budget]
+        if a.fuzz:
+            cmd += ["--fuzz", a.fuzz]
         r = subprocess.run(cmd, env=env, stdout=subprocess.PIPE, stderr=subprocess.STDOUT, text=True)
         lines = r.stdout.strip().splitlines()
         print(f"== {c}: exit {r.returncode}")
